@@ -61,5 +61,6 @@ FinNext ==
      \/ (LHeight >= Window + 1 /\ \E d \in RandomSubset(2, 1..n) : Walk(d, FALSE, {"*"}, <<>>))
      \/ (LHeight >= Window + 2 /\ \E d \in RandomSubset(1, 1..n) : Walk(d, TRUE, {"*"}, <<>>))
      \/ \E x \in RandomSubset(1, {0}) : Restart
+     \/ (n < MaxBlocks /\ \E x \in RandomSubset(1, {0, 1, 2}) : x = 0 /\ \E seq \in RandomSubset(1, {q \in TxSeqs : q # <<>>}) : MkBadBlock(ltip, seq))
 FinSpec == Init /\ [][FinNext]_vars
 =============================================================================
